@@ -200,8 +200,14 @@ pub(crate) mod verif_u2 {
                 let s: Frame = $s;
                 assert!(s >= 1 && s - 1 < l - 2 * $w);
                 DEC_N.store(1, Ordering::Relaxed);
-                let m = input_msg(s, kani::any());
+                // our own unacknowledged outputs 3,4; the packet piggy-backs an ack for frame 3
+                ep.last_acked_input = InputBytes { frame: 2, bytes: vec![0] };
+                ep.pending_output.push_back(InputBytes { frame: 3, bytes: vec![1] });
+                ep.pending_output.push_back(InputBytes { frame: 4, bytes: vec![2] });
+                let m = input_msg(s, 3);
                 ep.handle_message(&m);
+                // the piggy-backed ack is honoured even though the payload cannot be decoded
+                assert!(ep.pending_output.len() == 1 && ep.last_acked_input.frame == 3, "piggy-backed ack processed");
                 assert!(ep.event_queue.is_empty(), "nothing can be delivered");
                 assert!(ep.last_recv_frame() == l);
                 assert!(ep.send_queue.len() == 1, "the retransmission must be answered");
